@@ -265,6 +265,9 @@ class Run:
         inconclusive_reason = None
         if self.shards_bad:
             inconclusive_reason = f'{self.shards_bad} shard(s) died/timed out'
+        elif self.counters.get('harness_errors', 0) > 0:
+            inconclusive_reason = (f"{int(self.counters['harness_errors'])} "
+                                   'task(s) ended in a harness error')
         elif missing:
             inconclusive_reason = f'monitor counters at zero: {missing}'
         elif self.evaluations < 1 or distinct_nt < 2:
